@@ -63,6 +63,17 @@ func comment(r *rand.Rand) string {
 	return "/* " + body + " */"
 }
 
+// alias is a string literal as it may follow a token name in a %token line.
+func alias(r *rand.Rand) string {
+	n := 1 + r.Intn(3)
+	parts := []string{}
+	for i := 0; i < n; i++ {
+		parts = append(parts, hostile[r.Intn(len(hostile))])
+	}
+	body := strings.ReplaceAll(strings.Join(parts, " "), "\"", "\\\"")
+	return "\"" + body + "\""
+}
+
 func sep(r *rand.Rand, mayBeEmpty bool, canonical string) string {
 	if r == nil {
 		return canonical
@@ -187,6 +198,9 @@ func Render(g *spec.Grammar, p Parts, o Options) string {
 			l = append(l, lex{s: t.Src()})
 			if withNum && t.Name != "" && t.Num != 0 {
 				l = append(l, lex{s: fmt.Sprint(t.Num)})
+			} else if t.Name != "" && coin(5) == 1 {
+				// a string alias after the token name (legal, unused by the generator)
+				l = append(l, lex{s: alias(r)})
 			}
 		}
 		l[len(l)-1].nl = true
